@@ -1069,6 +1069,17 @@ _Interp.regex_method = _regex_method
 def _isinstance(self, v, tnode):
     """isinstance against the handful of types ural's helpers test (the type expression is resolved, not run)"""
     nodes = tnode.elts if isinstance(tnode, ast.Tuple) else [tnode]
+    if isinstance(tnode, ast.Name) and tnode.id not in self.env:
+        # a module-level tuple of types: TYPES_HAVING_COMMENTS = (A, B, C)
+        rec = self.module.last_binding(tnode.id)
+        home = self.module
+        if rec is not None and rec[0] == "import":
+            site = self.repo.def_site(self.module, tnode.id)
+            if site is not None:
+                home = self.repo.mod(site[0])
+                rec = home.last_binding(site[1])
+        if rec is not None and rec[0] == "assign" and isinstance(rec[1], ast.Tuple):
+            return _Interp(self.repo, home, {}, self.depth).isinstance_(v, rec[1])
     for tn in nodes:
         tname = unparse(tn)
         if tname in _ISINSTANCE:
